@@ -10,7 +10,13 @@ PROP = dict(
                    "empty map, empty list) = the default. The model (scanner, viper lookup, presence test, default normalisation, loop) is tied to the real "
                    "configQuoteAwarePostProcessors by a differential run on ~20 000 (quick) generated tag x configuration cases per run, plus independent oracles "
                    "(watchdog, no placeholder left, the harness's own substitution - also through configured values that carry placeholders themselves: repeated "
-                   "indirect keys and diamonds must resolve, only a key met again on its own chain is circular -, end to end through Run).",
+                   "indirect keys and diamonds must resolve, only a key met again on its own chain is circular -, end to end through Run). "
+                   "Configure.Set is modelled as viper's override layer over the merged documents (Ioc.Placeholder.Layers: Set lower-cases the path and the keys of a map "
+                   "value and stores it in nested maps; a lookup searches that layer first, maps only, then - unless a set scalar shadows the path - the documents; AllSettings "
+                   "key by key): with nothing set it IS the model of the other theorems (C16_no_set); after Set the path that was set, every path below it that the value "
+                   "covers and every ancestor answer with what was set, in any letter case and also when the key was absent before (C16_set_get, C16_set_seen_below, "
+                   "C16_set_seen_through_ancestor, C16_set_present); a tag resolved AGAIN is resolved under the configuration as it is then (C16_resolve_again_current) - "
+                   "tied by histories resolve / Set / resolve on the real binder.",
         level_note="Modelled, not verified: Go regexp (leftmost-first) for the fixed pattern, strings.Replace/SplitN, viper.Get/AllSettings path lookup, "
                    "strconv2.ParseAny/FormatAny on the default text, json.Marshal and %v of configured values. Defaults that are slice/map literals or numbers "
                    "with more than 15 significant digits are left unmodelled (explicit outcome; such cases are run and judged by the oracles only, and counted).",
@@ -25,7 +31,14 @@ PROP = dict(
              "reaches one placeholder-bearing value at least twice - by repetition, through two different keys (a diamond), inside a default, inside another "
              "placeholder's key, inside one value, one level deeper - with/without defaults and upper-case keys, each under the designed and a mutated "
              "configuration; the substitution oracle follows such values (signature placeholder-indirect; a key met again on its own chain is circular "
-             "and left to the watchdog oracle). A case is non-trivial when the tag contains a placeholder; distinct = distinct scenario lines",
+             "and left to the watchdog oracle). After these n/12 HISTORIES (scenario `H`): 1-3 tags are resolved by the real processor on fresh properties, "
+             "paths of the configuration are changed with Configure.Set (the path a tag looked up, in any letter case; an ancestor replaced by a map that holds the rest of "
+             "the path; a path below it; a key that was absent; the path turned into a map / list / empty map; the same path set twice), and the SAME tags are resolved "
+             "again on fresh properties by a fresh processor - half of them over the designed level configurations (a leaf changes, the tag reaches it through values that "
+             "carry placeholders), half over random trees and grammar tags; a tenth also end to end through two Apps sharing the Configure (app.SetConfigure). The second "
+             "resolution must be what the harness's own substitution gives under ITS account of the current configuration (document + the values handed to Set composed "
+             "in order; it answers only for a path no Set is near, or one that a Set at or above it gave a value; signatures placeholder-set-stale / placeholder-set-current). "
+             "A case is non-trivial when the tag contains a placeholder; distinct = distinct scenario lines",
         trusted_base=COMMON_TB + ["Go regexp, strings.Replace/SplitN, viper v1.19 Get/AllSettings, strconv2 v0.0.2 ParseAny/FormatAny, encoding/json and fmt %v as modelled in "
                                   "Ioc.Placeholder (validated by the correspondence)",
                                   "the facts translator's reading of maxReplaceRounds (Facts.replaceBound)"],
@@ -35,6 +48,9 @@ PROP = dict(
                      "and for slice/map-literal defaults, the model abstains and only the oracles judge",
                      "the substitution theorem (C16_structured) is claimed for brace-free literals and replacements, as the property's quantifier says; termination and "
                      "no-placeholder-left for all byte strings and all configurations",
+                     "histories: Set is never handed nil (AllSettings - `${}` - rebuilds its answer inside the maps of viper's override layer in Go's map order; with a stored nil the "
+                     "answer depends on that order), map values handed to Set have no two keys that differ only in letter case; what a lookup answers BESIDE a path that was set "
+                     "(`db.port` through `${db}` after Set(\"db.host\")) follows viper's layering - the model has it, the oracle claims nothing there",
                      "known findings KF-C16-1 (default = lone quote character) and KF-C16-2 (negative list index in a key) are Go panics of dependencies; the model pins "
                      "them as `panic` outcomes (C16_*_counterexample)"],
     )
